@@ -60,7 +60,7 @@ func init() {
 // writes for err.
 type VerifEnvelope struct {
 	Type, Message, LogMessage, Kind string
-	HasTraceback, HasFrames        bool
+	HasTraceback, HasFrames         bool
 }
 
 // VerifErrorEnvelope computes what writeErrorBatch puts on the wire for err.
